@@ -119,3 +119,27 @@ package xml
 //@   requires[S] l != nil && l.r != nil && bufInv(l.r)
 //@ func NewLexer
 //@   ensures[S]  result != nil && result.r == r && !result.inTag && result.err == nil
+
+// ---- util.go (C17): exact buffer sizing by counting
+//@ func EscapeAttrVal
+//@   requires[S] buf != nil && disjoint(b, deref(buf))
+//@   requires[F] disjoint(deref(buf), singleQuoteEntityBytes) && disjoint(deref(buf), doubleQuoteEntityBytes)
+//@   ensures[S]  len(result) >= len(b) + 2
+//@   ensures[F,C17] @quoted: result[0] == result[len(result)-1] && (result[0] == '"' || result[0] == '\'')
+//@   ensures[F,C17] @no-raw-quote: forall(k, 1, len(result)-1, result[k] != result[0])
+//@   loop 1 invariant -1 <= rangeindex && rangeindex < len(b) && singles == cnt(b, '\'', 0, rangeindex+1) && doubles == cnt(b, '"', 0, rangeindex+1)
+//@   loop 2 invariant -1 <= rangeindex && rangeindex < len(b) && (quote == '"' || quote == '\'') && len(t) == n && n == len(b) + 2 + 4*old(cnt(b, quote, 0, len(b)))
+//@   loop 2 invariant 0 <= start && start <= rangeindex+1 && j == 1 + start + 4*old(cnt(b, quote, 0, rangeindex+1)) && forall(k, start, rangeindex+1, b[k] != quote)
+//@   loop 2 invariant[F] forall(k, 1, j, t[k] != quote) && (escapedQuote[0] == '&' && escapedQuote[1] == '#' && escapedQuote[2] == '3' && escapedQuote[4] == ';' && (escapedQuote[3] == '4' || escapedQuote[3] == '9')) && disjoint(t, escapedQuote)
+//@   loop 2 invariant disjoint(b, t) && forall(k, 0, len(b), b[k] == old(b[k])) && len(escapedQuote) == 5 && t[0] == quote
+//@   loop * decreases len(b) - rangeindex
+
+//@ func EscapeCDATAVal
+//@   requires[S] buf != nil && disjoint(b, deref(buf))
+//@   ensures[S]  !result1 ==> sameSlice(result0, b)
+//@   ensures[S]  result1 ==> len(result0) >= len(b)
+//@   loop 1 invariant -1 <= rangeindex && rangeindex < len(b) && n == 3*cnt(b, '<', 0, rangeindex+1) + 4*cnt(b, '&', 0, rangeindex+1) && n <= 12
+//@   loop 2 invariant -1 <= rangeindex && rangeindex < len(b) && len(t) == len(b) + n && n == 3*old(cnt(b, '<', 0, len(b))) + 4*old(cnt(b, '&', 0, len(b)))
+//@   loop 2 invariant 0 <= start && start <= rangeindex+1 && j == start + 3*old(cnt(b, '<', 0, rangeindex+1)) + 4*old(cnt(b, '&', 0, rangeindex+1)) && forall(k, start, rangeindex+1, b[k] != '<' && b[k] != '&')
+//@   loop 2 invariant disjoint(b, t) && forall(k, 0, len(b), b[k] == old(b[k]))
+//@   loop * decreases len(b) - rangeindex
